@@ -24,7 +24,7 @@ META = {"REMOTE_ADDR", "REMOTE_HOST", "REMOTE_PORT", "SERVER_NAME", "SERVER_PORT
 
 
 def _closure(ctx):
-    f = ctx.p.functions.get("proxy_headers.proxy_headers_middleware.translate_proxy_headers")
+    f = ctx.p.func("proxy_headers.proxy_headers_middleware.translate_proxy_headers") if "proxy_headers.proxy_headers_middleware.translate_proxy_headers" in ctx.p.functions else None
     if f is None:
         raise AnalysisError("anchor vanished: translate_proxy_headers closure")
     return f, cfg_of(f)
